@@ -75,8 +75,9 @@ INFO = {
         "bounds": "read classification: every 32-bit address; writes at an enumerated boundary set of 48 concrete addresses (both ends +-1 of every region, interior points, "
                   "addresses >= 2^24 that would alias) with symbolic values in two rounds, followed by ONE probe read at a fully symbolic 32-bit address "
                   "(for the DRAM group the probe is an enumerated set of 64 concrete addresses); 16/32-bit composition at the same boundary set",
-        "outside": "write address fully symbolic (a symbolic-index store into the 2 MiB DRAM array is a byte-update over two million elements: out of memory, measured; with DRAM shortened the "
-                   "two-symbolic-writes + symbolic-probe query was not decided by CaDiCaL within 25 minutes - harness c09::sym_write_probe kept unregistered); port DDR/DR registers (C16)",
+        "outside": "SYMBOLIC WRITE ADDRESSES INSIDE DRAM (a symbolic-index store into the 2 MiB DRAM array is a byte-update over two million elements: out of memory, measured) - DRAM writes are "
+                   "decided at the enumerated boundary set only; symbolic write addresses everywhere else (two writes + symbolic probe on the real RAM / vector / I/O arrays, harness "
+                   "c09_sym_write_probe_nodram, 23 min) are in the thorough tier only; port DDR/DR registers (C16)",
         "assumptions": ["no stub at all on the bus", "fresh bus from Cpu::new() (all zero) plus the harness's own writes"],
     },
     "C10": {
